@@ -49,6 +49,9 @@ func (t *truth) vals(h int64) []ValP {
 	if h < t.h0 {
 		h = t.h0
 	}
+	if h > t.h0+400 {
+		h = t.h0 + 400
+	}
 	for int64(len(t.sets)) <= h-t.h0 {
 		prev := t.sets[len(t.sets)-1]
 		r := t.r.Fork(uint64(len(t.sets)))
@@ -194,7 +197,7 @@ func genHistory(e *env, r *hlib.Rand, id, maxSteps int) Result {
 		if (overflow && i == 0) || r.Chance(1, 4) {
 			now = genVerify(run, r.Fork(uint64(1000+i)), t, now, overflow)
 		} else {
-			now = genUpdate(run, r.Fork(uint64(1000+i)), t, now)
+			now = genUpdate(run, r.Fork(uint64(1000+i)), t, now, i >= nsteps-2)
 		}
 	}
 	return run.res
@@ -216,7 +219,7 @@ func pick(r *hlib.Rand, weights ...int) int {
 }
 
 // genUpdate builds one update step and runs it; returns the (possibly advanced) clock.
-func genUpdate(run *run, r *hlib.Rand, t *truth, now int64) int64 {
+func genUpdate(run *run, r *hlib.Rand, t *truth, now int64, late bool) int64 {
 	cs := run.clientState()
 	st := storedHeights(run)
 	latest := int64(cs.LatestHeight.RevisionHeight)
@@ -317,7 +320,7 @@ func genUpdate(run *run, r *hlib.Rand, t *truth, now int64) int64 {
 	for _, s := range st {
 		if s.h.EQ(th) {
 			exp := s.time + cs.TrustingPeriod.Nanoseconds()
-			if exp-1 >= now && r.Chance(1, 12) {
+			if exp-1 >= now && (late || s.h.LT(cs.LatestHeight)) && r.Chance(1, 8) {
 				now = exp - 2 + int64(r.Intn(3))
 				desc = append(desc, "clock-expiry-boundary")
 				// a header from the far future of the trusted state: keep its own time plausible
@@ -327,7 +330,7 @@ func genUpdate(run *run, r *hlib.Rand, t *truth, now int64) int64 {
 			}
 		}
 	}
-	if r.Chance(1, 25) {
+	if late && r.Chance(1, 6) {
 		now += cs.TrustingPeriod.Nanoseconds() * int64(1+r.Intn(2))
 		desc = append(desc, "clock-far-future")
 		if r.Chance(2, 3) {
